@@ -5,10 +5,20 @@
 // Claims
 //   C06.round / C06.miter / C06.square / C06.bevel   region sandwich of the join type (tags: not_covered | covered_beyond,
 //                                                     inflate | shrink, sample_on_result_edge)
-//   C06.orientation     every result path has area sign = sigma * (-1)^nesting depth, winding of the result is 0 or sigma
-//                       everywhere (sigma = input convention xor ReverseSolution)
-//   C06.overshrink      Round/Miter/Square shrink with |delta| > inradius + t leaves a path (band is empty => nothing may remain)
-//   C06.small_delta     |delta| < 0.5 changes the region membership of a sample
+//   C06.orientation     every result path that is not a sliver (|area| > 2.5 x perimeter) and whose nesting is unambiguous has
+//                       area sign = sigma * (-1)^nesting depth; the winding number of the result at every judged sample
+//                       (outside the band) is 0 or sigma (sigma = input convention xor ReverseSolution)
+//   C06.overshrink      Round/Miter/Square shrink with |delta| > inradius + t leaves a path (band is empty => nothing may remain);
+//                       Bevel keeps parts of Nrm legitimately, there the samples alone judge
+//   C06.small_delta     |delta| < 0.5 changes the region membership of a sample outside the band
+//   C06.error_code      ClipperOffset::ErrorCode() != 0 on a valid input
+//
+// Oracle corrections made during bring-up (the library was right, the first oracle demanded too much):
+//   * the clean-up union truncates intersection points to integers, so neighbouring result paths may overlap by about a
+//     unit and slivers thinner than a unit may come out inverted — all inside the tolerance band. Hence no winding-range
+//     check inside the band, nesting needs unanimous vertices, slivers are not judged for orientation.
+//   * |delta| < 0.5: the union drops "very small triangles" (two vertices within one unit), whose interior points are all
+//     within 0.71 of their boundary; the claim is judged, like every other, only outside the tolerance band t.
 #include "region.h"
 #include "gen.h"
 #include "c06_offset_common.h"
@@ -27,10 +37,7 @@ enum Expect { EX_NONE = 0, EX_IN = 1, EX_OUT = 2 };
 
 // what the property demands at a point with probe pr (see DESIGN.md C06); tm = t + margin
 static Expect expectation(int jt, ld delta, ld tm, ld k, int conv, const offs::Probe& pr) {
-  if (pr.on) {
-    // on an input edge: sd = 0
-  }
-  const ld sd = offs::signed_dist(pr);
+  const ld sd = offs::signed_dist(pr);          // 0 for a point on an input edge
   const bool inside = !pr.on && pr.w != 0;
   const bool outside = !pr.on && pr.w == 0;
   if (jt == JT_ROUND) {
